@@ -1292,6 +1292,13 @@ class Interp:
             else:
                 tgt = s.exc.func if isinstance(s.exc, ast.Call) else s.exc
                 name = (dotted(tgt) or norm(tgt)).split(".")[-1]
+                if not isinstance(s.exc, ast.Call):
+                    # `raise exc` where exc holds an exception caught (or stored) earlier: its class is what propagates
+                    held = self.eval(s.exc, st)
+                    if isinstance(held, S) and held.name.startswith("exc:"):
+                        name = held.name[4:]
+                    elif isinstance(held, R) and held.kind == "exc" and isinstance(held.fields.get("cls"), K):
+                        name = str(held.fields["cls"].v)
             st.term = ("raise", name, norm(s.exc) if s.exc is not None else "")
             return [st]
         if isinstance(s, ast.Pass):
